@@ -749,6 +749,13 @@ class ExprMixin:
                     return Tup(base.items[slice(lo, hi, stp)], base.kind)
         if isinstance(base, Poly) and base.const_value() is not None:
             return base     # a 0-d value can only be indexed by () / Ellipsis, which returns it
+        if isinstance(base, Poly) and base.single_atom() is None and isinstance(key, Poly) and key.const_value() is not None \
+                and key.const_value().denominator == 1 and key.const_value() >= 0:
+            # (x.shape / 2)[k] is x.shape[k] / 2: arithmetic on an un-indexed .shape is element-wise
+            from .npmodel import _shape_vector_elem
+            r_ = _shape_vector_elem(base, int(key.const_value()))
+            if r_ != base:
+                return r_
         if isinstance(base, Poly) and isinstance(key, Poly):
             ba = base.single_atom()
             if ba is not None and ba[0] == 'app' and ba[1] == 'arange' and all(isinstance(x, Poly) for x in ba[2]):
